@@ -602,6 +602,103 @@ theorem negateJac_refines (Q : JacPoint) (hQ : JValid p c Q) :
 theorem negateJac_valid (Q : JacPoint) (hQ : JValid p c Q) : JValid p c (negateJac c Q) :=
   (negateJac_spec hp Q hQ).1
 
+/-! ### affine second operand -/
+omit hp
+
+variable (p) in
+/-- validity of btclib's affine pair: `y = 0` (the integer) spells infinity; any other pair is a
+nonsingular point of the curve.  (No range condition: `(x, p)` is read, correctly, as the
+2-torsion point `(x, 0)` of the field, because the code tests the integer `y`.) -/
+def AValid (c : CurveGroup) (R : Point) : Prop :=
+  R.2 ≠ 0 → (curveOf p c).Nonsingular (castJ p (R.1, R.2, 1))
+
+variable (p) in
+/-- abstraction of an affine pair (`0` when `y = 0`) -/
+noncomputable def absA (c : CurveGroup) (R : Point) : (curveOf p c).toAffine.Point :=
+  absJ p c (jacFromAff R)
+
+theorem absA_of_y_eq_zero {R : Point} (h : R.2 = 0) : absA p c R = 0 := by
+  apply absJ_of_Z_eq_zero
+  simp [jacFromAff, h]
+
+theorem absA_of_y_ne_zero {R : Point} (h : R.2 ≠ 0) : absA p c R = absJ p c (R.1, R.2, 1) := by
+  simp [absA, jacFromAff, h]
+
+/-- a valid affine pair with `y ≠ 0` denotes the affine point with these coordinates -/
+theorem absA_eq_some {R : Point} (h : R.2 ≠ 0) (hR : AValid p c R) :
+    ∃ hns : (curveOf p c).toAffine.Nonsingular (R.1 : ZMod p) (R.2 : ZMod p),
+      absA p c R = .some _ _ hns := by
+  have e : castJ p (R.1, R.2, 1) = ![(R.1 : ZMod p), (R.2 : ZMod p), 1] := by simp [castJ]
+  have hn : (curveOf p c).Nonsingular ![(R.1 : ZMod p), (R.2 : ZMod p), 1] := by
+    have := hR h; rwa [e] at this
+  refine ⟨(Jacobian.nonsingular_some ..).mp hn, ?_⟩
+  rw [absA_of_y_ne_zero h, absJ, e, toAffine_some hn]
+
+theorem JValid_of_AValid {R : Point} (h : R.2 ≠ 0) (hR : AValid p c R) :
+    JValid p c (R.1, R.2, 1) := by
+  refine ⟨fun h1 => ?_, fun _ => hR h⟩
+  simp at h1
+
+theorem JValid_jacFromAff {R : Point} (hR : AValid p c R) : JValid p c (jacFromAff R) := by
+  by_cases h : R.2 = 0
+  · exact JValid_of_Z_eq_zero (by simp [jacFromAff, h])
+  · have : jacFromAff R = (R.1, R.2, 1) := by simp [jacFromAff, h]
+    rw [this]; exact JValid_of_AValid h hR
+
+include hp
+
+/-- T1b: `add_jac_aff` computes the group law (second operand affine, infinity spelled `y = 0`). -/
+theorem addJacAff_spec (Q : JacPoint) (R : Point) (hQ : JValid p c Q) (hR : AValid p c R) :
+    JValid p c (addJacAff c Q R) ∧ absJ p c (addJacAff c Q R) = absJ p c Q + absA p c R := by
+  by_cases hQz : Q.2.2 = 0
+  · by_cases hRz : R.2 = 0
+    · rw [addJacAff_inf_inf c Q R hQz hRz, absJ_INFJ, absJ_of_Z_eq_zero hQz,
+        absA_of_y_eq_zero hRz, add_zero]
+      exact ⟨JValid_INFJ, rfl⟩
+    · rw [addJacAff_inf_left c Q R hQz hRz, absJ_of_Z_eq_zero hQz, zero_add,
+        absA_of_y_ne_zero hRz]
+      exact ⟨JValid_of_AValid hRz hR, rfl⟩
+  · by_cases hRz : R.2 = 0
+    · rw [addJacAff_inf_right c Q R hQz hRz, absA_of_y_eq_zero hRz, add_zero]
+      exact ⟨hQ, rfl⟩
+    · have hPn := hQ.2 hQz
+      have hRn := hR hRz
+      have hPz := hQ.Z_ne hQz
+      have hRz' : castJ p (R.1, R.2, 1) 2 ≠ 0 := by simp
+      rw [addJacAff_finite c Q R hQz hRz, absA_of_y_ne_zero hRz]
+      by_cases hV : affV c Q R = 0
+      · rw [if_pos hV]
+        have hV' := (affV_eq_zero_iff hp Q R).mp hV
+        by_cases hW : affW c Q R = 0
+        · rw [if_pos hW]
+          have hW' := (affW_eq_zero_iff hp Q R).mp hW
+          have hc := doubleJacHelper_cast hp Q (Q.2.2 * Q.2.2 % c.p)
+            (Or.inr (by rw [cast_emod hp, Int.cast_mul]; ring))
+          obtain ⟨hn, ha⟩ := same_spec hPn hRn hPz hRz' hV' hW'
+          refine ⟨⟨doubleJacHelper_Z_reduced hp _ _, fun _ => ?_⟩, ?_⟩
+          · rw [hc]; exact hn
+          · rw [absJ, hc]; exact ha
+        · rw [if_neg hW]
+          have hW' : chordW (castJ p Q) (castJ p (R.1, R.2, 1)) ≠ 0 :=
+            fun h => hW ((affW_eq_zero_iff hp Q R).mpr h)
+          refine ⟨JValid_INFJ, ?_⟩
+          rw [absJ_INFJ]
+          exact (opp_spec hPn hRn hPz hRz' hV' hW').symm
+      · rw [if_neg hV]
+        have hV' : chordV (castJ p Q) (castJ p (R.1, R.2, 1)) ≠ 0 :=
+          fun h => hV ((affV_eq_zero_iff hp Q R).mpr h)
+        obtain ⟨hn, _, ha⟩ := chord_spec hPn hRn hPz hRz' hV'
+        have hc := affChord_cast hp Q R
+        refine ⟨⟨affChord_Z_reduced hp _ _, fun _ => ?_⟩, ?_⟩
+        · rw [hc]; exact hn
+        · rw [absJ, hc]; exact ha
+
+theorem addJacAff_refines (Q : JacPoint) (R : Point) (hQ : JValid p c Q) (hR : AValid p c R) :
+    absJ p c (addJacAff c Q R) = absJ p c Q + absA p c R := (addJacAff_spec hp Q R hQ hR).2
+
+theorem addJacAff_valid (Q : JacPoint) (R : Point) (hQ : JValid p c Q) (hR : AValid p c R) :
+    JValid p c (addJacAff c Q R) := (addJacAff_spec hp Q R hQ hR).1
+
 end Refine
 
 end Btc.C01
